@@ -101,7 +101,9 @@ def match_matrix(rng=None, sample=None):
         # every fourth case matches on a variable that the patterns bind themselves (match x / (x, y) then ...)
         sv = "x" if (si + pi + pos) % 4 == 0 else "s"
         # (whether a failed arm leaves partial bindings behind is not specified: x is then not read after the match)
-        yield Block([Asg(sv, SUBJECTS[si][1]()), Asg("r", Match(Id(sv), arms, e)), Core("print", [Id("r")])] +
+        # (in every other case r already holds a value: a match in which no arm matches must still yield null)
+        yield Block(([Asg("r", Str("stale"))] if (si + pi) % 2 == 0 else []) +
+                    [Asg(sv, SUBJECTS[si][1]()), Asg("r", Match(Id(sv), arms, e)), Core("print", [Id("r")])] +
                     ([Core("print", [Id(sv)])] if sv == "s" else []) + [Id("r")])
 
 
@@ -124,7 +126,8 @@ def match_alternatives(rng=None, sample=None):
         pats = [pat, o] if order == 0 else [o, pat]
         g = None if guard == "none" else Bool(guard == "true")
         arms = [Arm(pats, arm_body("HIT", []), g), Arm([PId("other")], arm_body("REST", []))]
-        yield Block([Asg("s", SUBJECTS[si][1]()), Asg("r", Match(Id("s"), arms)), Core("print", [Id("r")]), Id("r")])
+        yield Block(([Asg("r", Str("stale"))] if (si + pi) % 2 == 0 else []) +
+                    [Asg("s", SUBJECTS[si][1]()), Asg("r", Match(Id("s"), arms)), Core("print", [Id("r")]), Id("r")])
 
 
 def match_random(rng, n):
@@ -156,8 +159,9 @@ def match_random(rng, n):
                     guard = Bool(r.random() < 0.5)
             arms.append(Arm(pats, arm_body("A%d" % ai, [n for n in common_names if n not in ("rs",)]), guard))
         e = arm_body("ELSE", []) if r.random() < 0.5 else None
-        xs = [Asg("t", Fn([Param("v")], Block([Core("print", [Str("subject")]), Id("v")]))),
-              Asg("r", Match(App(Id("t"), [subj]), arms, e)), Core("print", [Id("r")]), Id("r")]
+        xs = [Asg("t", Fn([Param("v")], Block([Core("print", [Str("subject")]), Id("v")])))] + \
+             ([Asg("r", Str("stale"))] if r.random() < 0.5 else []) + \
+             [Asg("r", Match(App(Id("t"), [subj]), arms, e)), Core("print", [Id("r")]), Id("r")]
         out.append(Block(xs))
     return out
 
